@@ -95,6 +95,11 @@ func genEvent(tp *sim.Tape, m *Model, f *Fixture, focus string) Ev {
 			if m.Ph == PhKeys && m.KeyVar > 0 {
 				e.Var = m.KeyVar
 			}
+			if focus != "signing" && m.Ph == PhKeys && m.KeyVar >= 0 && tp.Choose(6, "deviantKey?") == 0 {
+				// an awaited participant announces something else than the others did
+				// (another key, another polynomial, or both)
+				e.Var = (m.KeyVar + 1 + tp.Choose(3, "deviantVar")) % 4
+			}
 			return e
 		case PhReady:
 			return Ev{Kind: EvStart, Pid: tp.Choose(n, "pid")}
@@ -123,7 +128,7 @@ func genEvent(tp *sim.Tape, m *Model, f *Fixture, focus string) Ev {
 		}
 	case EvKey:
 		if tp.Choose(3, "keyVar?") == 0 {
-			e.Var = 1 + tp.Choose(2, "keyVar")
+			e.Var = 1 + tp.Choose(3, "keyVar")
 		}
 	case EvErrCommit, EvErrDeal, EvErrResponse, EvErrKey:
 		e.Var = tp.Choose(8, "errText")
